@@ -736,3 +736,75 @@ def float_decode(s):
         prev_is_e = is_e
     exp = z3.If(to_bool(eneg), -exp, exp)
     return neg, concretize(mant), concretize(nfrac), concretize(exp)
+
+
+# ---------------------------------------------------------------------------------------------
+# polynomial normalisation of quotients (centroid formulas divide a polynomial by the polygon area)
+
+def _to_sympy(t, syms, budget):
+    import sympy
+    budget[0] -= 1
+    if budget[0] < 0:
+        return None
+    if z3.is_rational_value(t):
+        return sympy.Rational(t.numerator_as_long(), t.denominator_as_long())
+    if z3.is_int_value(t):
+        return sympy.Integer(t.as_long())
+    if z3.is_const(t) and t.decl().kind() == z3.Z3_OP_UNINTERPRETED:
+        n = t.decl().name()
+        if n not in syms:
+            syms[n] = (sympy.Symbol('v%d' % len(syms)), t)
+        return syms[n][0]
+    if not z3.is_app(t):
+        return None
+    k = t.decl().kind()
+    if k == z3.Z3_OP_TO_REAL:
+        return _to_sympy(t.arg(0), syms, budget)
+    ch = [_to_sympy(c, syms, budget) for c in t.children()]
+    if any(c is None for c in ch):
+        return None
+    if k == z3.Z3_OP_ADD:
+        return sum(ch[1:], ch[0])
+    if k == z3.Z3_OP_MUL:
+        r = ch[0]
+        for c in ch[1:]:
+            r = r * c
+        return r
+    if k == z3.Z3_OP_SUB:
+        r = ch[0]
+        for c in ch[1:]:
+            r = r - c
+        return r
+    if k == z3.Z3_OP_UMINUS:
+        return -ch[0]
+    if k == z3.Z3_OP_DIV and (z3.is_rational_value(t.arg(1)) or z3.is_int_value(t.arg(1))):
+        return ch[0] / ch[1]
+    return None
+
+
+def exact_quotient(a, b):
+    """a / b as a polynomial when b (a non-numeral polynomial) divides a exactly; None otherwise.
+    Only +, -, *, numerals and variables are understood; anything else (If, uninterpreted functions,
+    symbolic division) gives None and the quotient stays a z3 division."""
+    try:
+        import sympy
+        syms = {}
+        budget = [400]
+        pa, pb = _to_sympy(a, syms, budget), _to_sympy(b, syms, budget)
+        if pa is None or pb is None or not syms:
+            return None
+        gens = [v[0] for v in syms.values()]
+        q, r = sympy.div(sympy.Poly(sympy.expand(pa), *gens), sympy.Poly(sympy.expand(pb), *gens))
+        if not r.is_zero:
+            return None
+        back = dict((v[0], v[1]) for v in syms.values())
+        out = z3.RealVal(0)
+        for monom, coeff in q.terms():
+            term = z3.RealVal(str(sympy.Rational(coeff)))
+            for g, p in zip(gens, monom):
+                for _ in range(p):
+                    term = term * (z3.ToReal(back[g]) if z3.is_int(back[g]) else back[g])
+            out = out + term
+        return z3.simplify(out)
+    except Exception:
+        return None
